@@ -11,6 +11,7 @@ Every maximal TLC behaviour is replayed through the REAL wrapper and a literal P
 real wrappers under a random driver, and the same chains executed by a real RunEngine on protocol-only fake devices
 (with device ledgers) are validated by TLC (PairedTrace).
 """
+import gc
 import sys
 
 from harness import wrapproto as wp
@@ -40,6 +41,7 @@ def run(ctx):
         wp.run_paired(ctx, "C23", "Paired_C23_small.cfg" if ctx.quick else "Paired_C23_large.cfg", KINDS, C23_INVS,
                       replay_plans(ctx.quick), wp.PAIRED_KINDS, KF_SIG, KF_WHAT)
     finally:
+        gc.collect()                 # left-over generators are finalised while the hook is still silenced
         sys.unraisablehook = old_hook
     ctx.assumptions += [
         "CPython generator semantics; the driver answers every message (a real RunEngine is used for the ledger runs)",
